@@ -91,6 +91,34 @@ func c12Pair(x *X, u, d string) {
 			return
 		}
 	}
+	// A label that spans lines, used inside a block quote and inside a list item:
+	// the container prefix of the continuation line is not part of the label.
+	if strings.Contains(u, "\n") && !strings.Contains(u, "\x00") {
+		for _, cv := range []struct{ name, first, rest string }{{"quote", "> ", "> "}, {"list-item", "- ", "  "}} {
+			var sb strings.Builder
+			for _, use := range []string{"[" + u + "]", "[" + u + "][]", "[zq][" + u + "]", "![" + u + "]"} {
+				ls := strings.Split(use, "\n")
+				for i, l := range ls {
+					if i == 0 {
+						sb.WriteString(cv.first + l + "\n")
+					} else {
+						sb.WriteString(cv.rest + l + "\n")
+					}
+				}
+				sb.WriteString("\n")
+			}
+			sb.WriteString("[" + d + "]: /dest\n")
+			cin := []byte(sb.String())
+			cb, crefs := cm.Parse(clone(cin))
+			out, _ := renderHTML(&cm.HTMLRenderer{ReferenceMap: crefs}, cb)
+			n := strings.Count(out, `href="/dest"`) + strings.Count(out, `src="/dest"`)
+			if (want && n != 4) || (!want && n != 0) {
+				x.Fail("resolution", "all-forms/"+cv.name, cin, "use label %q (normal form %q, valid %v) inside a %s, definition label %q (normal form %q, valid %v): %d of the 4 reference forms resolved, want %v for all; rendered %q", u, nu, vu, cv.name, d, nd, vd, n, want, out)
+				return
+			}
+			x.Count("pairs_also_in_containers")
+		}
+	}
 	if vd {
 		if def, ok := refs[nd]; !ok || def.Destination != "/dest" {
 			x.Fail("map-key", "", in, "definition label %q: reference map %v has no entry under the normal form %q", d, keysOf(refs), nd)
